@@ -288,7 +288,8 @@ _C02 = ["truncating_conventions", "euclidean_conventions",
         "ubig_ibig_div_rem_exact", "ibig_is_multiple_of_exact",
         "const_divisor_new_value", "const_divisor_eq_plain", "const_divisor_ibig_exact",
         "nm_invert_word_exact", "nm_div_rem_2by1_exact", "nm_invert_double_word_exact",
-        "nm_div_rem_3by2_exact", "nm_div_rem_4by2_exact", "nm_contracts_discharged"]
+        "nm_div_rem_3by2_exact", "nm_div_rem_4by2_exact", "nm_contracts_discharged",
+        "div_scratch_memory_suffices"]
 _GEN = ["ibig_div_exact", "ibig_rem_exact", "ibig_divrem_exact", "ibig_div_euclid_exact",
         "ibig_rem_euclid_exact", "ibig_divrem_euclid_exact", "ubig_ibig_rem_exact", "ubig_ibig_divrem_exact"]
 THEOREMS = ["Dashu.Props.C02." + t for t in _C02] + ["Dashu.Props.GenInt." + t for t in _GEN]
@@ -308,6 +309,7 @@ REFINED = [
     "DivRem / Div / Rem for TypedRepr (all four size-class arms, zero divisor -> panic_divide_by_0)",
     "TypedRepr::add_one; impl_ibig_div, impl_ibig_rem, impl_ibig_divrem, impl_ibig_div_euclid, impl_ibig_rem_euclid, impl_ibig_divrem_euclid, impl_ubig_ibig_rem, impl_ubig_ibig_divrem (model glue = glue regenerated from /repo = Int.tdiv/tmod resp. ediv/emod)",
     "UBig::is_multiple_of, IBig::is_multiple_of, is_multiple_of_const (non-zero double-word divisor)",
+    "div::memory_requirement_exact / divide_conquer::memory_requirement_exact: sufficient for every scratch allocation of div_rem_in_place, all operand lengths (memory.rs 'not enough memory allocated' unreachable)",
     "num-modular 0.6 Normalized2by1Divisor::{invert_word, div_rem_1by1, div_rem_2by1} and Normalized3by2Divisor::{invert_double_word, div_rem_2by2, div_rem_3by2, div_rem_4by2} (Moeller-Granlund Algorithms 4, 5, 6 with every wrapping operation) = floor division under the crate's preconditions; the division model's contract parameters are discharged (nm_contracts_discharged)",
     "ConstDivisor::new (single/double/large, zero -> divide-by-zero panic), value(); div_rem_small_single, div_rem_small_double, ConstSingleDivisor::{rem_dword, rem_large}, ConstDoubleDivisor::{rem_dword, rem_large}; Div / Rem / DivRem<&ConstDivisor> for TypedRepr, IBig forms",
 ]
